@@ -112,7 +112,7 @@ def run(ctx):
         ctx.violation({"clause": "model:" + r.invariant}, "Pipeline2 violates " + r.invariant, {"tlc": r.out[-2000:]})
     # (R) pairs from TLC
     from .c12 import opts_record
-    mod = os.path.join(core.SPEC, "MC_Pipeline2Emit.tla")
+    mod = os.path.join(ctx.work, "MC_Pipeline2Emit.tla")
 
     def full(args):
         o = opts_record(args)
@@ -131,7 +131,7 @@ def run(ctx):
     open(cfg, "w").write("SPECIFICATION Spec\nCONSTANTS\n  BaseOptionSets <- ReplayBases\n  FormatSubsets <- AllFormatSubsets\n"
                          "INVARIANT EmitInv\nINVARIANT NonInterference\n")
     try:
-        r = core.run_tlc("MC_Pipeline2Emit", cfg, ctx.work, workers=4, timeout=1200)
+        r = core.run_tlc(mod, cfg, ctx.work, workers=4, timeout=1200)
     finally:
         os.unlink(mod)
     core.need_ok(r, "MC_Pipeline2Emit")
